@@ -371,10 +371,14 @@ CLAIMED = {
              "reads back exactly; each of the four errors has an input. (b) The version-script and export-list parsers (parse_version_script, parse_version_section, parse_matcher with its "
              "extern blocks, parse_export_list, skip_comments_and_whitespace) as Gallina functions over byte lists in which every loop of the Rust code is a fuelled recursion. Theorems: for "
              "EVERY byte string and every behaviour of the glob crate both parsers end within length+1 iterations of each loop (no loop goes round without consuming a byte); the pinned tree's "
-             "extern loop is refuted (no fuel suffices at end of input; repaired in /repo). The rest of the property (ELF, archive, linker-script parsing, argument handling: no panic, abort, "
+             "extern loop is refuted (no fuel suffices at end of input; repaired in /repo); printing any structured script (distinct names, parents among earlier versions, global and local "
+             "patterns over letters, digits, _ . * ? without **) and parsing it back gives exactly that structure (C22_version_script_round_trip). (c) The expansion of @file arguments "
+             "with its bound of 100 levels over an arbitrary file system: a file that names itself is reported at every bound, the unbounded expansion of the pinned tree never ends on it "
+             "(repaired), and the bound is invisible below it. The rest of the property (ELF, archive, linker-script parsing, argument handling: no panic, abort, "
              "signal or hang on any bytes) is decided by mutation runs and by amplified inputs (one construct nested or repeated up to 200000 times) of the real binary.",
         note="Partial: the tokenizer and the version-script / export-list parsers are modelled and tied (same result — parsed structure rendered canonically, or error — on generated and "
-             "mutated texts through hooks with catch_unwind; whether the glob crate accepts a pattern is a parameter of the model and such cases are skipped in the comparison). Stack depth "
+             "mutated texts through hooks with catch_unwind; whether the glob crate accepts a pattern is a parameter of the model and such cases are skipped in the comparison; the round-trip theorem's printer is evaluated in Coq and its "
+             "output parsed by wild; graphs of argument files with cycles and chains around the bound are expanded by the model and by wild). Stack depth "
              "is not a notion of the model: recursion depth is exercised by the amplified inputs. Every other parser is exercised by targeted byte mutations, truncations and token-level "
              "mutations of valid inputs and by random argument lists, under a 20 s limit; the archive iterator is also driven directly on every prefix and on header mutations. A sampled "
              "search never proves absence of crashes.",
